@@ -204,7 +204,7 @@ fn main() {
         "compile-script" => {
             // a whole history inside ONE process: file operations and Compile runs in sequence
             // (tab separated fields; W path hex | RM path | LN target path | MKDIR path | UT path secs |
-            //  SNAP label path.. | RUN label args..); snapshots go to the directory given as second argument
+            //  CD path | SNAP label path.. | RUN label args..); snapshots go to the directory given as second argument
             let script = std::fs::read_to_string(&o.positional[0]).expect("script");
             let snapdir = std::path::PathBuf::from(&o.positional[1]);
             std::fs::create_dir_all(&snapdir).expect("snapdir");
@@ -256,6 +256,9 @@ fn main() {
                                 Err(_) => std::fs::write(mt, "absent").unwrap(),
                             }
                         }
+                    }
+                    "CD" => {
+                        std::env::set_current_dir(f[1]).expect("script chdir");
                     }
                     "RUN" => {
                         let a: Vec<String> = f[2..].iter().map(|s| s.replace("\\n", "\n")).collect();
